@@ -1,5 +1,5 @@
 import Drand.Secrecy
-namespace Drand.Driver
+namespace Drand.Driver.SecrecyD
 open Drand Drand.Secrecy
 
 def parseOctal (s : String) : Option Nat :=
@@ -39,4 +39,4 @@ def secrecyStep (f : List String) : String :=
     | _, _ => "bad-op"
   | _ => "bad-op"
 
-end Drand.Driver
+end Drand.Driver.SecrecyD
